@@ -1,28 +1,12 @@
-//! C19 — dumps the generated JSON Schema and the JSON serialisation (by the library's own serde impls)
-//! of every registry of `regspace`, packed 1000 entries per document, for the python validator.
+//! C19 (configuration with bit-vec): whole documents from the static universe + the shared regspace dump.
 #![cfg(feature = "schema")]
 
-use rayon::prelude::*;
 use scale_info::PortableRegistry;
-use serde_json::{json, Value};
-use vcommon::regspace;
+use serde_json::Value;
 use vuniverse::u1;
 
 pub fn dump(thorough: bool, dir: &str) -> i32 {
-    std::fs::create_dir_all(dir).unwrap();
-    let schema = schemars::schema_for!(PortableRegistry);
-    std::fs::write(format!("{dir}/schema.json"), serde_json::to_string(&schema).unwrap()).unwrap();
-    let mut regs = regspace::registries(thorough);
-    let d = regspace::dom(thorough);
-    let rich = regspace::Rich { d: &d };
-    for c in rich.choices(if thorough { 3 } else { 2 }) {
-        regs.push(PortableRegistry { types: vec![rich.build(&c)] });
-    }
-    // whole documents: registries as the library produces them
     let mut whole: Vec<Value> = vec![];
-    whole.push(serde_json::to_value(PortableRegistry { types: vec![] }).unwrap());
-    whole.push(serde_json::to_value(PortableRegistry::from(scale_info::Registry::new())).unwrap());
-    whole.push(serde_json::to_value(scale_info::PortableRegistryBuilder::new().finish()).unwrap());
     let u = u1::universe();
     let mut all = scale_info::Registry::new();
     for m in &u {
@@ -37,22 +21,5 @@ pub fn dump(thorough: bool, dir: &str) -> i32 {
     whole.push(serde_json::to_value(&allp).unwrap());
     allp.retain(|_| false);
     whole.push(serde_json::to_value(&allp).unwrap());
-    let entries: Vec<Value> = regs
-        .par_iter()
-        .flat_map_iter(|r| {
-            let v = serde_json::to_value(r).expect("serialises");
-            match v.get("types").and_then(|t| t.as_array()) {
-                Some(a) => a.clone(),
-                None => vec![],
-            }
-        })
-        .collect();
-    let mut ndocs = 0;
-    for (i, chunk) in entries.chunks(1000).enumerate() {
-        std::fs::write(format!("{dir}/entries_{i:05}.json"), serde_json::to_string(&json!({"types": chunk})).unwrap()).unwrap();
-        ndocs += 1;
-    }
-    std::fs::write(format!("{dir}/whole.json"), serde_json::to_string(&whole).unwrap()).unwrap();
-    println!("{}", json!({"registries": regs.len(), "entries": entries.len(), "entry_documents": ndocs, "whole_documents": whole.len()}));
-    0
+    vcommon::schemadump::dump(thorough, dir, whole)
 }
